@@ -181,7 +181,10 @@ fn resolve(
         }
 
         if let Some(vbox) = view_box {
-            let size = Size::from_wh(r.width() * stroke_scale, r.height() * stroke_scale).unwrap();
+            let size = match Size::from_wh(r.width() * stroke_scale, r.height() * stroke_scale) {
+                Some(v) => v,
+                None => return,
+            };
             let vbox_ts = vbox.to_transform(size);
             let (sx, sy) = vbox_ts.get_scale();
             ts = ts.pre_scale(sx, sy);
